@@ -127,6 +127,15 @@ HOSTILE = [
     "\t1\n", "1\n+\n2", "1 # comment", "'''a\nb'''", "'\\x00'", "'\\ud800'", "\"\\N{BULLET}\"", "1 if True else __import__('os')",
 ]
 
+# round 5: every line separator some layer of the interpreter recognises (tokenizer / str.splitlines / neither), with the syntax error
+# (or the end of input) on a later "line": error reporting that indexes source lines or columns must not turn a failure into a raise
+LINE_SEPS = ["\n", "\r", "\r\n", "\n\r", "\x0b", "\x0c", "\x1c", "\x1d", "\x1e", "\x85", "\u2028", "\u2029"]
+for _sep in LINE_SEPS:
+    HOSTILE += ["(1 +" + _sep + " 2 +" + _sep + " )", _sep * 3 + ")", "1" + _sep + "2", "1 +" + _sep, "'a" + _sep + "b'", "(" + _sep * 1000,
+                "(1," + _sep * 40 + "2" + _sep + "+)", "1 +" + _sep + "\t\t" + "x" * 300 + " $", "probe(1," + _sep + ")" + _sep + ")",
+                "[1," + _sep + "2", '{"a":' + _sep + "}", "1 \\" + _sep + "+ 2 +", "#c" + _sep + "1 +"]
+del _sep
+
 BOMBS = [
     ("pow-tower", "9**9**9**9"), ("pow-tower", "2**(2**(2**(2**5)))"), ("pow-tower", "9**9**9"), ("pow-big-exponent", "2**100000000"),
     ("pow-big-exponent", "10**10**6 % 7"), ("pow-chain", "((2**1000)**1000)**1000"), ("pow-from-int-str", "int('9'*4000)**9999"),
